@@ -16,12 +16,7 @@ Theorem C13_forked_inprocess_agree :
       run_suite rk verdict_suite Forked cap n = Finished v pf /\
       run_suite rk verdict_suite InProcess cap n = Finished v pi /\
       out pf = out pi /\ tot pf = tot pi /\ c pf = c pi /\ out pf = spec_events [] czero n.
-Proof.
-  intros rk cap n Hrk Hcap Hs Hok.
-  destruct (run_suite_spec rk verdict_suite Forked cap n (builtin_rk_folds rk Hrk) Hcap Hs (ok_tree_weaken cap n Hok)) as (f1 & R1).
-  destruct (run_suite_spec rk verdict_suite InProcess cap n (builtin_rk_folds rk Hrk) Hcap Hs Hok) as (f2 & R2).
-  do 3 eexists. split; [exact R1|]. split; [exact R2|]. cbn. auto.
-Qed.
+Proof. exact forked_inprocess_agree. Qed.
 Print Assumptions C13_forked_inprocess_agree.
 
 (* the reset: after AReset nothing an earlier test did to the framework is visible *)
